@@ -26,6 +26,9 @@ type TBCall struct {
 	PreMs   []int  `json:"pre_ms,omitempty"`   // timeout pre-responses, each followed by a sleep of SleepMs
 	SleepMs int    `json:"sleep_ms,omitempty"` // handler sleep after each pre-response / before the reply
 	Reply   string `json:"reply"`              // ok | err | none
+	// Req selects the request value: "" none, "big" larger than the server's
+	// maximum payload (the publish fails), "bad" not marshalable.
+	Req string `json:"req,omitempty"`
 }
 
 // TBCase is a case of the tier B scenario.
@@ -79,6 +82,7 @@ func (TierBScenario) GenCase(r *rand.Rand, prop string) interface{} {
 				call.PreMs = append(call.PreMs, pick(r, 205, 1005, 3005))
 			}
 			call.SleepMs = pick(r, 0, 50, 100, 400, 900)
+			call.Req = pick(r, "", "", "", "", "", "big", "bad")
 			c.Calls = append(c.Calls, call)
 		}
 	}
@@ -429,6 +433,7 @@ func tbSendReq(c *TBCase, b *natsim.Broker, h *Hist, out *Outcome) {
 				r.OK(nil)
 			}
 		}))
+	b.MaxPayload = 4096
 	nc, err := tbConnect(b, "service")
 	if err != nil {
 		h.Violate("C19", "tierb-connect", "", err.Error())
@@ -459,7 +464,14 @@ func tbSendReq(c *TBCase, b *natsim.Broker, h *Hist, out *Outcome) {
 		fin := make(chan struct{})
 		start := time.Now()
 		go func() {
-			got = resprot.SendRequest(peer, call.Subject, nil, time.Duration(call.TimeoutMs)*time.Millisecond)
+			var req interface{}
+			switch call.Req {
+			case "big":
+				req = map[string]string{"params": strings.Repeat("x", 6000)}
+			case "bad":
+				req = map[string]interface{}{"params": make(chan int)}
+			}
+			got = resprot.SendRequest(peer, call.Subject, req, time.Duration(call.TimeoutMs)*time.Millisecond)
 			took = time.Since(start)
 			close(fin)
 		}()
@@ -482,6 +494,11 @@ func tbSendReq(c *TBCase, b *natsim.Broker, h *Hist, out *Outcome) {
 		var at time.Duration
 		sleep := time.Duration(call.SleepMs) * time.Millisecond
 		switch {
+		case call.Req != "":
+			// marshal and publish failures are reported as internal errors
+			// without waiting
+			want, at = "system.internalError", 0
+			out.Faults["tierb-"+call.Req+"-request"]++
 		case call.Subject == "call.nobody.home.x":
 			at = time.Duration(call.TimeoutMs) * time.Millisecond
 		case call.Subject == "call.test.model.1.unknown":
